@@ -42,7 +42,7 @@ def T(k):
 
 
 class Pair:
-    def __init__(self, root, backend, split=False, nested=False):
+    def __init__(self, root, backend, split=False, nested=False, filestore=False):
         from dvc_objects.fs.local import LocalFileSystem
 
         from dvc_data.hashfile.db import HashFileDB
@@ -84,8 +84,24 @@ class Pair:
             self.odb_other.add_bytes(self.dirhash["other"], canonical_dir_bytes({k[len("other") + 1:]: MD5[k] for k in LAZY["other"]}))
             os.unlink(self.odb.oid_to_path(self.dirhash["other"]))
 
+        # what lives below `other` kept as plain files: a FileStorage registered for that sub-tree but rooted one level up,
+        # with an explicitly empty prefix (loading the directory walks <fsroot>/other)
+        self.fsroot = None
+        if filestore:
+            self.fsroot = os.path.join(root, "fsroot")
+            for k in LAZY["other"]:
+                os.makedirs(os.path.dirname(os.path.join(self.fsroot, k)), exist_ok=True)
+                with open(os.path.join(self.fsroot, k), "wb") as fh:
+                    fh.write(FILES[k])
+            with open(os.path.join(self.fsroot, "x"), "wb") as fh:
+                fh.write(b"a sibling of the sub-tree, not part of it")
+
         def new(name):
             idx = DataIndex.open(os.path.join(root, name + ".db")) if backend.startswith("sqlite") else DataIndex()
+            if self.fsroot is not None:
+                from dvc_data.index import FileStorage
+
+                idx.storage_map.add_cache(FileStorage(key=("other",), fs=self.fs, path=self.fsroot, prefix=()))
             if self.odb_other is not None:
                 idx.storage_map.add_cache(ObjectStorage(("other",), self.odb_other))
             idx.storage_map.add_cache(ObjectStorage((), self.odb))
@@ -101,6 +117,9 @@ class Pair:
             self.explicit[T(d)] = DataIndexEntry(key=T(d), meta=Meta(isdir=True), hash_info=HashInfo("md5", self.dirhash[d]), loaded=True)
         for k in FILES:
             if k != "foo":
+                if filestore and k in LAZY["other"]:      # (entries loaded from plain files carry no hash)
+                    self.explicit[T(k)] = DataIndexEntry(key=T(k), meta=Meta(), hash_info=None)
+                    continue
                 self.explicit[T(k)] = DataIndexEntry(key=T(k), meta=Meta(md5=MD5[k]), hash_info=HashInfo("md5", MD5[k]))
         for d in INNER:
             self.explicit[T(d)] = DataIndexEntry(key=T(d), meta=Meta(isdir=True), loaded=True)
@@ -203,7 +222,8 @@ def run_trace(case):
 
     root = tlc.scratch_dir("c17-")
     try:
-        pair = Pair(root, case["backend"], split=bool(case.get("split")), nested=bool(case.get("nested")))
+        pair = Pair(root, case["backend"], split=bool(case.get("split")), nested=bool(case.get("nested")),
+                    filestore=bool(case.get("filestore")))
 
         def other_index():
             o = DataIndex()
@@ -305,6 +325,13 @@ def directed_cases():
     for op, args in [("FsCat", [k]) for k in FILES] + [("FsInfo", [k]) for k in keys] + [("FsLs", [d]) for d in dirs]:
         for first in ([], [{"op": "FsFind", "args": [""]}]):
             cases.append({"id": n, "ops": first + [{"op": op, "args": args}], "backend": "memory", "split": True})
+            n += 1
+    # `other` kept as plain files by a FileStorage with an explicitly empty prefix
+    for backend in ("memory", "sqlite-reopened"):
+        for op, args in [("Get", ["other/x"]), ("Ls", ["other"]), ("Iter", ["", False]), ("Iter", ["other", False]), ("FsCat", ["other/x"]),
+                         ("FsFind", [""]), ("ViewIter", ["other"]), ("FsLs", ["other"]), ("FsInfo", ["other/x"])]:
+            cases.append({"id": n, "ops": [{"op": op, "args": args}, {"op": "Iter", "args": ["", False]}, {"op": "FsCat", "args": ["other/x"]}],
+                          "backend": backend, "filestore": True})
             n += 1
     # nested storage prefixes (the store of `other` registered before the root's): every operation touching `other` first
     for backend in ("memory", "sqlite-reopened"):
